@@ -2,7 +2,7 @@
 """Regenerates /verif/seeded/README.md from the meta.json files."""
 import json, glob
 rows = []
-for d in sorted(glob.glob('/verif/seeded/*/')):
+for d in sorted(glob.glob('/verif/seeded/C*/')):
     m = json.load(open(d + 'meta.json'))
     ok = m['patch_applies'] and m['suite_with_change']['failed'] == 0 and m['demo_with_change'] == 'fails' and m['demo_without_change'] == 'passes'
     rows.append("| %s | %s | %s | %s | %s |" % (m['id'], m.get('round', 1 if m['id'][-1] in '12' else 1), m.get('needs_to_manifest', '').replace('|', '/'),
@@ -20,5 +20,17 @@ changes (longer histories, larger vectors, combinations) for twelve properties.
 | id | round | needs, to manifest | detected by | history |
 |---|---|---|---|---|
 """ + "\n".join(rows) + "\n"
+brows = []
+for d in sorted(glob.glob('/verif/seeded/benign/*/')):
+    m = json.load(open(d + 'meta.json'))
+    st = m.get('suite_with_change', {})
+    brows.append("| %s | %s | %s passed / %s failed (literal-diff assertions) | %s |" % (m['id'], m['keeps_property'], st.get('passed'), st.get('failed'),
+                 "silent" if not m['false_alarms'] else "ALARM " + ",".join(m['false_alarms'])))
+out += """
+## Property-preserving changes (`benign/`): the checks must stay silent
+
+| id | keeps | existing suite with the change | quick check of that property |
+|---|---|---|---|
+""" + "\n".join(brows) + "\n"
 open('/verif/seeded/README.md', 'w').write(out)
 print(len(rows), "rows;", sum(1 for r in rows if "MISSED" in r), "missed")
